@@ -28,6 +28,9 @@ M = {
     "universe_unsliced": ("core.py", "            self._funiverse = self._universe.loc[: self.now]\n", "            self._funiverse = self._universe\n"),
     "invvol_window_now": ("algos.py", "        prc = target.universe.loc[t0 - self.lookback : t0, selected]\n        tw = bt.ffn.calc_inv_vol_weights(prc.to_returns().dropna())", "        prc = target.universe.loc[t0 - self.lookback :, selected]\n        tw = bt.ffn.calc_inv_vol_weights(prc.to_returns().dropna())"),
     "coupon_next_row": ("core.py", "        coupon = self._coupons.values[inow]\n", "        coupon = self._coupons.values[min(inow + 1, len(self._coupons.values) - 1)]\n"),
+    "paper_checks_root_bankrupt": ("core.py", "                if not self._paper.bankrupt:\n", "                if not self.root.bankrupt:\n"),
+    "paper_half_notional": ("core.py", "            paper.adjust(self._paper_amount)", "            paper.adjust(self._paper_amount / 2)"),
+    "paper_every_update": ("core.py", "        if self._paper_trade:\n            if newpt:\n", "        if self._paper_trade:\n            if True:\n"),
     "pre_f01": ("core.py", "def _w(series):", "def _w(series):\n    return series.values\n\n\ndef _w_orig(series):"),
 }
 
